@@ -19,7 +19,7 @@ pub fn install_panic_hook() {
             .map(|l| {
                 let f = l.file();
                 // strip to repo-relative path where possible
-                let f = f.strip_prefix("/repo/").unwrap_or(f);
+                let f = f.strip_prefix("/repo/").unwrap_or_else(|| f.find("/pallas-").map(|i| &f[i + 1..]).unwrap_or(f));
                 f.to_string()
             })
             .unwrap_or_else(|| "?".into());
@@ -418,6 +418,8 @@ struct Partial {
     runs: u64,
     nontrivial_runs: u64,
     draws: u64,
+    /// order-independent digest of (batch, run index, trace hash, tape hash) over every run
+    digest: u64,
 }
 
 pub fn run_check(def: &CheckDef, opts: &Opts) -> i32 {
@@ -477,6 +479,7 @@ pub fn run_check(def: &CheckDef, opts: &Opts) -> i32 {
                     runs: 0,
                     nontrivial_runs: 0,
                     draws: 0,
+                    digest: 0,
                 };
                 loop {
                     if stop.load(Ordering::Relaxed) {
@@ -500,6 +503,7 @@ pub fn run_check(def: &CheckDef, opts: &Opts) -> i32 {
                         p.stats.merge(&o.stats, 2_000_000);
                         p.stats.add(if b.faulty { "runs.faulty" } else { "runs.fault_free" }, 1);
                         p.all_hashes.insert(o.trace_hash);
+                        p.digest = p.digest.wrapping_add(mix(mix(bi as u64, idx), mix(o.trace_hash, hash_vals(&o.values))));
                         if o.nonneutral > 0 && o.progress {
                             p.nontrivial_runs += 1;
                             p.distinct.insert(o.trace_hash);
@@ -537,7 +541,9 @@ pub fn run_check(def: &CheckDef, opts: &Opts) -> i32 {
     let mut known_hits: BTreeMap<String, u64> = BTreeMap::new();
     let mut guard: HashMap<(usize, u64), (u64, u64)> = HashMap::new();
     let (mut runs, mut nontrivial_runs, mut draws) = (0u64, 0u64, 0u64);
+    let mut digest = 0u64;
     for p in parts {
+        digest = digest.wrapping_add(p.digest);
         stats.merge(&p.stats, 8_000_000);
         distinct.extend(p.distinct);
         all_hashes.extend(p.all_hashes);
@@ -670,6 +676,11 @@ pub fn run_check(def: &CheckDef, opts: &Opts) -> i32 {
         println!("KNOWN-FINDING: property={} {} [signature {}; hits {}; replay {}]", prop, what, sig, known_hits[sig], path);
         known_out.push(json!({"signature": sig, "hits": known_hits[sig], "replay": path}));
     }
+    // listed findings this run did not reach are named as well, so that the output accounts for every entry
+    for k in known.iter().filter(|k| k.property == prop && k.status == "known" && !known_first.contains_key(&k.signature)) {
+        println!("KNOWN-FINDING: property={} {} [signature {}; hits 0 in this run]", prop, k.what, k.signature);
+        known_out.push(json!({"signature": k.signature, "hits": 0, "replay": "-"}));
+    }
     // known findings that are panics end the run and therefore arrive as violations
     // with a tolerated signature: handled above by `report`; panics cannot be stepped over,
     // so they are matched here instead.
@@ -758,7 +769,9 @@ pub fn run_check(def: &CheckDef, opts: &Opts) -> i32 {
             "abstract_states_reached": stats.states.len(),
             "components": {"real": def.real, "stub": def.stub},
             "environment_nondeterminism": def.env_nondeterminism,
-            "determinism": {"runs_compared": guard_compared, "mismatches": guard_mismatch},
+            "determinism": {"runs_compared": guard_compared, "mismatches": guard_mismatch,
+                            "all_runs_digest": format!("{:016x}", digest),
+                            "digest_note": "order-independent sum over every run of hash(batch, run index, trace hash, tape hash); equal digests from two processes (any worker counts) mean every run was identical"},
             "known_findings_hit": known_out,
             "violations_reported": reported,
             "workers": opts.workers,
@@ -770,8 +783,8 @@ pub fn run_check(def: &CheckDef, opts: &Opts) -> i32 {
         std::fs::write(format!("{}/{}.json", evdir, prop), serde_json::to_string_pretty(&ev).unwrap()).expect("write evidence");
     }
     println!(
-        "{} tier={} seed={} runs={} distinct_nontrivial={} violations={} known={} wall={:.1}s exit={}",
-        prop, opts.tier, opts.seed, runs, distinct.len(), n_viol, known_first.len(), wall, exit
+        "{} tier={} seed={} runs={} distinct_nontrivial={} violations={} known={} digest={:016x} wall={:.1}s exit={}",
+        prop, opts.tier, opts.seed, runs, distinct.len(), n_viol, known_first.len(), digest, wall, exit
     );
     exit
 }
